@@ -280,8 +280,13 @@ def s_history(draw, tier=None):
         st.tuples(st.just("remove"), st.integers(0, 4)),
         st.tuples(st.just("remove-list"), st.lists(st.integers(0, 4), min_size=1, max_size=3, unique=True)),
         st.tuples(st.just("add-lanelet"), st.integers(0, 1)))
-    return {"net": net, "extra": extra["lanelets"], "pool": pool,
-            "ops": [list(o) for o in draw(st.lists(op, min_size=3, max_size=14))]}
+    # life cycles (add, assign, remove, re-add, assign again) mixed with free operations
+    cycle = st.tuples(st.integers(0, 4), st.booleans()).map(lambda t: [
+        ["add", t[0], False], ["assign", None if t[1] else [t[0]]], ["remove", t[0]], ["add", t[0], False],
+        ["assign", [t[0]]]])
+    chunks = draw(st.lists(st.one_of(op.map(lambda o: [list(o)]), op.map(lambda o: [list(o)]), cycle), min_size=2,
+                           max_size=8))
+    return {"net": net, "extra": extra["lanelets"], "pool": pool, "ops": [o for ch in chunks for o in ch][:24]}
 
 
 def check_history(r, ctx):
@@ -328,11 +333,14 @@ def check_history(r, ctx):
                     ctx.label("op-skipped")
                     continue
                 # re-assignment of an already assigned obstacle after the network changed is not in the domain
-                target = set(inside) if ids is None else ids
-                if target & assigned:
+                target = (set(inside) if ids is None else ids) - assigned
+                if not target:
                     ctx.label("op-skipped")
                     continue
-                sc.assign_obstacles_to_lanelets(obstacle_ids=ids)
+                if ids is None and target == set(inside):
+                    sc.assign_obstacles_to_lanelets()
+                else:
+                    sc.assign_obstacles_to_lanelets(obstacle_ids=set(target))
                 assigned |= target
             elif kind in ("remove", "remove-list"):
                 idx = [op[1]] if kind == "remove" else op[1]
@@ -416,7 +424,7 @@ FACETS = [
                "or the sets change over time"),
     Facet("file-open", check_file, strategy=s_file, quick=600, thorough=30000,
           rule="same scenarios written to XML / protobuf and opened with lanelet_assignment=True"),
-    Facet("histories", check_history, strategy=s_history, quick=500, thorough=25000,
+    Facet("histories", check_history, strategy=s_history, quick=800, thorough=25000,
           rule="3-14 steps of add obstacle (with or without pre-set, true lanelet ids) / assign (all or subset) / remove "
                "(single, list) / add lanelet / re-add; invariant after every step: registries list only contained "
                "obstacles and are the exact inverse of the recorded shape assignment; non-trivial = assign followed by a "
